@@ -2,6 +2,16 @@
 import itertools
 from common import PropertyCheck, Case
 
+
+class _Lazy:
+    """fsgen imports this module (marker table); import it lazily to avoid the cycle"""
+    def __getattr__(self, name):
+        import fsgen as _f
+        return getattr(_f, name)
+
+
+fsgen = _Lazy()
+
 GAMES = ["NoOp", "FE9", "FE10", "FE13", "FE14", "FE15"]
 LANGS = ["EnglishNA", "EnglishEU", "Japanese", "Spanish", "French", "Italian", "German", "Dutch"]
 
@@ -62,14 +72,23 @@ NAMES = ["a", "dir name", "x.y", "@E", ".hidden", "日本", " ", "e_f", "...", "
 
 class C14(PropertyCheck):
     pid = "C14"
-    rule = ("exhaustive over 6 localizers x 8 languages x (paths of plain components from a 10-name alphabet, depth 1-2 (thorough 1-3) exhaustively, "
+    rule = ("file-system half: random histories of localized and unlocalized write/read/exists/file_exists/directory_exists/resolve/create_dir/list on real "
+            "temp-directory layers, rotating over the 5 supported games x 8 languages (generator shared with C12/C13); "
+            "localize itself: exhaustive over 6 localizers x 8 languages x (paths of plain components from a 10-name alphabet, depth 1-2 (thorough 1-3) exhaustively, "
             "deeper sampled) x trailing slash; degenerate strings; all strings up to length 5 over {a . / space} for no-panic. "
             "Non-trivial = localizer other than NoOp on a structured path; distinct = distinct case line.")
     assumptions = ["A-fs: std::path::Path::{parent,file_name} modelled on plain-component paths and the strings \"\", \"/\", \"..\", \".\" only; "
                    "other strings are compared for 'returns, does not panic' only"]
 
+    def corpus(self):
+        out = []
+        for c in PropertyCheck.corpus(self):
+            out.append(Case(fsgen.expand_corpus_line(c.line) if c.line.startswith("fs ") else c.line, "corpus"))
+        return out
+
     def generate(self, rng, tier):
-        cases = []
+        # file-system half: histories on real temp-directory layers with localized and unlocalized access (shared with C12/C13)
+        cases = fsgen.gen_cases(rng, tier, "c12", 800 if tier == "quick" else 8000, "fs-localized-histories")
         maxd = 2 if tier == "quick" else 3
         paths = []
         for d in range(1, maxd + 1):
@@ -102,9 +121,13 @@ class C14(PropertyCheck):
         return cases
 
     def nontrivial(self, case, impl_out):
+        if case.line.startswith("fs "):
+            return fsgen.nontrivial(case, impl_out, ("R", "W"))
         return case.stream == "structured" and not case.line.startswith("c14 0 ")
 
     def agree(self, case, impl_out, model_out, profile):
+        if case.line.startswith("fs "):
+            return fsgen.agree(impl_out, model_out)
         # outside the modelled path domain the model says so; there only "returns, no panic" is compared
         if model_out == "unmodelled":
             return impl_out.startswith("ok ") or impl_out.startswith("err ")
@@ -115,6 +138,9 @@ class C14(PropertyCheck):
         return GAMES[int(t[1])], LANGS[int(t[2])], unL(t[3])
 
     def oracle(self, case, impl_out, profile):
+        if case.line.startswith("fs "):
+            _, c = fsgen.parse_case(case.line)
+            return fsgen.check_history(c, impl_out)
         game, lang, path = self._parts(case)
         if impl_out in ("PANIC", "ABORT", "TIMEOUT"):
             return "localize panicked/aborted on %r" % path
@@ -143,8 +169,12 @@ MANIFEST = dict(
          "specification table written from the property text for all 5x8 pairs (finite proof), localize = directory part + marker + final "
          "component on every path of plain components (any depth, any characters, trailing slash or not), single components get the marker "
          "appended, degenerate paths are errors; model tied to /repo by exhaustive correspondence over localizers x languages x a structured path "
-         "family plus arbitrary strings (no panic), and an independent oracle table.",
+         "family plus arbitrary strings (no panic), and an independent oracle table. File-system half (last sentence of the property): "
+         "C14_fs_consistent - every operation with localized=true equals the same operation with localized=false on localize p (addressing, "
+         "existence queries, resolve, list, subdirectories, create_dir, and read/write under the codec-by-name side condition, which "
+         "C14_fs_same_codec discharges for dir/name paths), C14_fs_localisation_error; tied to /repo by localized-access histories on real "
+         "temp directories with a walk of every layer after every call.",
     note=TB + "Modelled, not verified: std::path::Path::parent/file_name (on plain-component paths and the strings \"\", \"/\", \"..\", \".\"); "
-              "other strings are outside the model and only checked for 'returns, no panic'. Filesystem consistency of the mapping is covered under C12/C13.",
+              "other strings are outside the model and only checked for 'returns, no panic'. A-fs for the file-system half (std::fs, glob, normpath) as in C12/C13.",
     technique="Coq proof (finite table by computation + list lemmas on split/join) + exhaustive extracted-model differential check",
     ref="DESIGN.md section 5 (C14)")
